@@ -14,6 +14,8 @@
 import QExPy.Num
 import QExPy.FB
 import QExPy.Model.Expr
+import QExPy.Model.MCMat
+import QExPy.Generated.MCCorr
 
 namespace QExPy
 
@@ -26,23 +28,6 @@ instance : IsFin FB := ⟨fun x => x.v.isFinite⟩
 
 namespace MC
 variable {α : Type} [Num α]
-
-abbrev Mat (α : Type) := List (List α)
-
-def zero : α := Num.ofNat 0
-def one : α := Num.ofNat 1
-
-/-- entry (i, j); out of range reads as 0 -/
-def Mat.get (M : Mat α) (i j : Nat) : α := (M.getD i []).getD j zero
-
-/-- n × n identity -/
-def identity (n : Nat) : Mat α :=
-  (List.range n).map fun i => (List.range n).map fun j => if i = j then one else zero
-
-/-- `np.count_nonzero(R - np.diag(np.diagonal(R))) == 0` -/
-def offDiagAllZero (R : Mat α) : Bool :=
-  (List.range R.length).all fun i =>
-    (List.range R.length).all fun j => i == j || Num.isZero (R.get i j)
 
 /-! ### Cholesky factor (lower triangular, reads the lower triangle only, like LAPACK `potrf('L')`) -/
 
@@ -123,7 +108,9 @@ def unitDiag (R : Mat α) : Mat α :=
     (`R` is the matrix of `get_correlation` values; the diagonal is set to one first) -/
 def factor (R0 : Mat α) : Mat α × Bool :=
   let R := unitDiag R0
-  if offDiagAllZero R then (identity R.length, false)
+  -- the "no correlations present" shortcut, as TRANSLATED from the source (Generated/MCCorr.lean);
+  -- for the unchanged code it is `offDiagAllZero` (Props/C02: `C02_shortcut_generated`)
+  if Gen.mcNoCorrelation R then (identity R.length, false)
   else match chol R with
     | some L => (L, false)
     | none => (identity R.length, true)
